@@ -62,7 +62,7 @@ CHECKS['C03'] = dict(
     runs=dict(quick=_vs_runs('c03', dict(N=3, depth=2, pads=2, subimage=1, maxsub=2), 2, extra=_VS_C02_ONLY),
               thorough=_vs_runs('c03', dict(N=5, depth=2, pads=3, subimage=1, maxsub=3), 8, extra=_VS_C02_ONLY) +
                        _vs_runs('c03', dict(N=3, depth=3, pads=2, subimage=2, maxsub=2, probe=1), 8, extra=_VS_C02_ONLY)),
-    witnesses_required=dict(all=['negative_step_states', 'transposed_states', 'channel_states', 'padded_rows', 'traversable_true', 'traversable_false']),
+    witnesses_required=dict(all=['negative_step_states', 'transposed_states', 'channel_states', 'padded_rows', 'traversable_true', 'traversable_true_one_row', 'traversable_false']),
     deadline=dict(quick=900, thorough=5400),
 )
 
